@@ -1,4 +1,4 @@
-import I2N.Lemmas.TravExcl
+import I2N.Lemmas.Trav
 /-!
 Locations and ownership of the traversal model (property C08).
 
